@@ -47,6 +47,7 @@
 #include <sstream>
 #include <string>
 #include <sys/resource.h>
+#include <unistd.h>
 #include <vector>
 
 namespace sg4 = simgrid::s4u;
@@ -603,7 +604,7 @@ int main(int argc, char** argv)
   }
   printf("END %a\n", sg4::Engine::get_clock());
   fflush(stdout);
-  // the actor handles and activities are released by the normal static destruction
-  g_main_actors.clear();
-  return 0;
+  // No static destruction: a mutex still held by a killed actor, for instance, makes the library abort in ~MutexImpl,
+  // long after the observations have been printed.  The log is complete at this point.
+  _exit(0);
 }
